@@ -56,7 +56,9 @@ def cases(rng, tier):
     for _ in range(200 if tier == "quick" else 1500):
         m = rng.getrandbits(rng.choice([6, 12, 30, 63]))
         k = bin(m).count("1")
-        idx = sorted({rng.randrange(max(k, 1) + 2) for _ in range(rng.randint(0, 4))})
+        idx = [rng.randrange(max(k, 1) + 2) for _ in range(rng.randint(0, 4))]      # repeats and any order allowed
+        if rng.random() < 0.5:
+            idx = sorted(set(idx))
 
         def pi(payload):
             t = payload.split()
@@ -70,7 +72,11 @@ def cases(rng, tier):
             a, b, c = v[1][0]
             return ("ok", a, b, c)
         bl = bits_of(m)
-        want = ("ok", sum(bl[i] for i in idx if i < len(bl)), m, len(bl))
+        want_list = 0
+        for i in idx:
+            if i < len(bl):
+                want_list |= bl[i]
+        want = ("ok", want_list, m, len(bl))
         cs.append(Case("vregsel %d %d %s" % (m, len(idx), " ".join(map(str, idx))),
                        "run_vreg_sel %s %s" % (cN(m), clist([cnat(i) for i in idx])), pi, pm,
                        oracle=lambda o, want=want: o == want, kind="vregsel"))
